@@ -40,7 +40,7 @@ def make_history(seed, i):
     calls = []
     fs = {}
     for k in range(rng.randrange(4, 10)):
-        kind = rng.choice(["modified", "modified", "notmodified", "syntax", "cancelled", "mapped-notmodified", "mapped-modified", "repeat", "mapped-external"])
+        kind = rng.choice(["modified", "modified", "notmodified", "syntax", "cancelled", "mapped-notmodified", "mapped-modified", "repeat", "mapped-external", "ext-same-url", "ext-same-url"])
         file = rng.choice(["dir/a.js", "dir/b.js", "c.js", "/abs/d.js"])
         if kind == "repeat" and calls:
             calls.append(dict(rng.choice(calls))); continue
@@ -56,6 +56,12 @@ def make_history(seed, i):
             code = "const v%d = [1,2].join('');\n//# sourceMappingURL=%s\n" % (k, omap_url("first-original-%d.ts" % k))
         elif kind == "mapped-modified":
             code = "function g%d(a,b){ return a + b.trim(); }\n//# sourceMappingURL=%s\n" % (k, omap_url("mapped-%d.ts" % k))
+        elif kind == "ext-same-url":
+            # files of different folders whose comment is the same relative URL: each folder has its own map
+            code = "function s%d(a,b){ return a + b.trim(); }\n//# sourceMappingURL=shared.js.map\n" % k
+            for folder in ("dir", "", "/abs"):
+                fs[os.path.join(folder, "shared.js.map")] = {"data": json.dumps({"version": 3, "sources": ["orig-of-%s.ts" % (folder.strip("/") or "top")], "names": [],
+                                                                                "mappings": "AAAA;AACA" if folder else "AAEA;AAEA"})}
         else:
             code = "function h%d(a,b){ return `${a}${b}`; }\n//# sourceMappingURL=ext%d.map\n" % (k, k)
             fs[os.path.join(os.path.dirname(file), "ext%d.map" % k)] = {"data": json.dumps({"version": 3, "sources": ["ext-%d.ts" % k], "names": [], "mappings": "AAAA;AACA"})}
